@@ -92,11 +92,17 @@ type Sched struct {
 
 	randSeed uint64
 	seq      uint64
+	debug    []string
 
 	OnQuiesce func() // driver hook, called after every synctest.Wait(); must not block or yield
 }
 
 var active atomic.Pointer[Sched]
+
+var progress atomic.Uint64
+
+// Progress returns a counter that moves whenever the scheduler makes a decision (watchdog use).
+func Progress() uint64 { return progress.Load() }
 
 // Active reports whether a simulation is running in this process.
 func Active() bool { return active.Load() != nil }
@@ -421,6 +427,7 @@ type Result struct {
 	Choices     []uint32
 	ChoiceCount int
 	DeadlockMsg string
+	Debug       []string
 }
 
 // Config configures one run.
@@ -469,6 +476,9 @@ func Run(cfg Config, runBubble func(func()), body func()) (res Result) {
 		}
 	}()
 	runBubble(func() {
+		// channels the driver blocks on must be created inside the bubble,
+		// otherwise the block is not durable and the fake clock never advances
+		s.kick = make(chan struct{}, 1)
 		s.t0 = time.Now()
 		s.untilPreempt = s.drawGap()
 		if cfg.MaxSimTime > 0 {
@@ -522,6 +532,7 @@ func (s *Sched) drive(done func() bool) {
 		s.cur = g
 		s.mu.Unlock()
 		s.log.sched(g.id)
+		progress.Add(1)
 		g.wake <- struct{}{}
 	}
 }
@@ -589,6 +600,7 @@ func (s *Sched) result() Result {
 		Goroutines:  len(s.all),
 		Choices:     s.ch.Trace(),
 		ChoiceCount: s.ch.Count(),
+		Debug:       s.debug,
 	}
 	if !s.t0.IsZero() && !s.simEnd.IsZero() {
 		r.SimTime = s.simEnd.Sub(s.t0)
